@@ -75,17 +75,33 @@ class Lock:
 # Coq
 # --------------------------------------------------------------------------
 
-def coq_make(targets=None, timeout=3000):
-    """Full .vo build of the development (no -vos). Returns (ok, log)."""
+def gen_coqproject():
+    """_CoqProject is generated from the file tree (coq/scratch is excluded)."""
+    files = []
+    for sub in ("Lib", "Spec", "Model", "Proofs", "Run", "Props"):
+        files += sorted(os.path.relpath(f, COQ) for f in glob.glob(os.path.join(COQ, sub, "*.v")))
+    txt = "-Q . CC\n-arg -w -arg -notation-overridden,-deprecated-hint-without-locality,-deprecated-instance-without-locality\n" \
+        + "\n".join(files) + "\n"
+    path = os.path.join(COQ, "_CoqProject")
+    if not os.path.exists(path) or open(path).read() != txt:
+        open(path, "w").write(txt)
+        return True
+    return False
+
+
+def coq_make(targets=None, timeout=3000, keep_going=False):
+    """Full .vo build (no -vos) of the given targets (default: everything). Returns (ok, log)."""
     with Lock("coq.lock"):
-        if not os.path.exists(os.path.join(COQ, "Makefile")) or \
-                os.path.getmtime(os.path.join(COQ, "Makefile")) < os.path.getmtime(os.path.join(COQ, "_CoqProject")):
+        changed = gen_coqproject()
+        if changed or not os.path.exists(os.path.join(COQ, "Makefile")):
             rc, out = sh(["coq_makefile", "-f", "_CoqProject", "-o", "Makefile"], cwd=COQ, timeout=120)
             if rc != 0:
                 return False, out
         cmd = ["timeout", str(timeout), "make", "-j%d" % NCPU]
+        if keep_going:
+            cmd.append("-k")
         if targets:
-            cmd += targets
+            cmd += list(targets)
         rc, out = sh(cmd, cwd=COQ, timeout=timeout + 60)
         return rc == 0, out
 
@@ -107,7 +123,7 @@ def proof_stage(prop, extra_props=()):
     """Re-check Props/<prop>.v: every Theorem compiles, every Print Assumptions is closed."""
     res = {"obligations": 0, "discharged": 0, "theorems": [], "problems": [], "axioms": []}
     files = [os.path.join(COQ, "Props", "%s.v" % p) for p in (prop,) + tuple(extra_props)]
-    ok, log = coq_make()
+    ok, log = coq_make([os.path.relpath(f, COQ) + "o" for f in files])
     if not ok:
         res["problems"].append("coq build failed: " + log[-3000:])
     names = []
